@@ -53,7 +53,12 @@ class Panoptica_Statistic:
         self.__value_dict = value_dict
 
         self.__groupnames = list(value_dict.keys())
-        self.__metricnames = list(value_dict[self.__groupnames[0]].keys())
+        # a file that holds only the header (no subject recorded yet) yields an empty statistic
+        self.__metricnames = (
+            list(value_dict[self.__groupnames[0]].keys())
+            if len(self.__groupnames) > 0
+            else []
+        )
 
         # assert length of everything
         for g in self.groupnames:
